@@ -150,11 +150,18 @@ def centres(spec):
     return xs, ys
 
 
-def tolerances(spec, extra=0.0):
+def tolerances(spec, n_ulp=12):
+    """Acceptance band: 1e-9 pixel (the property's tolerance) plus the a-priori binary64 rounding bound of the conversion
+    chain, in ulps of the largest coordinate M of the axis (every intermediate is a coordinate inside the extent or a
+    pixel size, so each rounding is <= 0.5 ulp(M)):
+      centres      upl = xmin + ps/2 (<= 1), first = 0*ps + upl (<= 1.5), last = (n-1)*ps + upl (<= 3.5)
+      unit factor  v/k on write, *k on read (km, geostationary angles): <= 2 more on first/last/extent
+      spacing      ((last - first)/(n-1))/2: <= 2.5          extent = first -/+ half, last +/- half: <= 4.5 / 6.5 (+2 with a unit factor)
+      => n_ulp = 12 covers every extent; the loaded area's own centre vector adds (err(xmin') + err(xmax')) + 1.5 + 1 <= 24."""
     x0, y0, x1, y1 = spec["extent"]
     psx, psy = abs(x1 - x0) / spec["w"], abs(y1 - y0) / spec["h"]
-    tx = 1e-9 * psx + 8 * max(ulp(x0), ulp(x1)) + extra
-    ty = 1e-9 * psy + 8 * max(ulp(y0), ulp(y1)) + extra
+    tx = 1e-9 * psx + n_ulp * max(ulp(x0), ulp(x1))
+    ty = 1e-9 * psy + n_ulp * max(ulp(y0), ulp(y1))
     return tx, ty
 
 
@@ -193,13 +200,25 @@ def judge_cf(c, tags, o):
         xs = xs[::-1]
     if c["flipy"]:
         ys = ys[::-1]
-    if not bad and not (vec_close(o["xvec"], xs, tx) and vec_close(o["yvec"], ys, ty)):
+    vx, vy = tolerances(spec, 24)
+    if not bad and not (vec_close(o["xvec"], xs, vx) and vec_close(o["yvec"], ys, vy)):
         bad.append(("C20.cf.pixel_location." + cls, "pixel centres of the loaded area differ from the stored element positions"))
     # the stored vectors themselves (times the unit factor) are where the elements are
     k = o["k"] or 1.0
-    if not bad and not (vec_close([v * k for v in o["stored_x"]], o["xvec"], tx + 4 * ulp(max(map(abs, o["xvec"])) or 1.0))
-                        and vec_close([v * k for v in o["stored_y"]], o["yvec"], ty + 4 * ulp(max(map(abs, o["yvec"])) or 1.0))):
+    if not bad and not (vec_close([v * k for v in o["stored_x"]], o["xvec"], vx) and vec_close([v * k for v in o["stored_y"]], o["yvec"], vy)):
         bad.append(("C20.cf.pixel_location." + cls, "pixel (r, c) of the loaded area is not where element (r, c) of the stored array is"))
+    if c["mode"] == 1:
+        # named hypothesis of C20_cf_units, on the implementation: the conversion applied to an extent corner is multiplication
+        # by k (PROJ: a single unitconvert step; <= 2 roundings), with x and y kept in place
+        for xi, yi, xo, yo in o.get("tab", []):
+            if abs(xo - xi * c["k"]) > 2 * ulp(xo) or abs(yo - yi * c["k"]) > 2 * ulp(yo):
+                bad.append(("C20.cf.units.uconv", "unit conversion of corner (%r, %r) %s gave (%r, %r), not the corner times %g"
+                            % (xi, yi, c["xunit"], xo, yo, c["k"])))
+                break
+    if o.get("repeat_same") is False:
+        bad.append(("C20.cf.history", "a second load_cf_area of the same dataset gave a different area or the dataset was modified"))
+    if c.get("future") and o.get("type") != "AreaDefinition":
+        pass
     if not c["flipx"] and not c["flipy"] and o["crs_eq"] and o["eq"] is not True:
         bad.append(("C20.cf.eq." + cls, "north-to-south round trip: loaded area != original (== gives %s)" % o["eq"]))
     if not (o["crs_eq"] or o["crs_op"]):
